@@ -1,0 +1,32 @@
+//go:build verif
+
+// Contracts for the gowp verifier (/verif). Comment-only file: compiled only with -tags verif and
+// contributes no code either way.
+
+package models
+
+//@ spec func clampRate(r int) int = ite(r > 10000000, 10000000, ite(r < -10000000, -10000000, r))
+//@ spec func inFee(ib int, ir int, amt int) int = ib + tdiv(clampRate(ir)*amt, 1000000)
+//@ spec func outFee(base int, rate int, amt int) int = base + fdiv(amt*rate, 1000000)
+//@
+//@ func (i *InboundFee) CalcFee
+//@   props C09 C19
+//@   requires amt <= 922337203685 || (-1000000 <= i.Rate && i.Rate <= 1000000 && amt <= 1<<42)
+//@   ensures  result == inFee(i.Base, i.Rate, amt)
+//@   nowrap
+//@   modifies nothing
+//@   replay scalar
+//@
+//@ func (c *CachedEdgePolicy) ComputeFee
+//@   props C09 C19
+//@   requires amt <= 1<<40 && c.FeeProportionalMillionths <= 1000000 && c.FeeBaseMSat < 1<<32
+//@   ensures  result == outFee(c.FeeBaseMSat, c.FeeProportionalMillionths, amt)
+//@   nowrap
+//@   modifies nothing
+//@
+//@ func (c *ChannelEdgePolicy) ComputeFee
+//@   props C09 C19
+//@   requires amt <= 1<<40 && c.FeeProportionalMillionths <= 1000000 && c.FeeBaseMSat < 1<<32
+//@   ensures  result == outFee(c.FeeBaseMSat, c.FeeProportionalMillionths, amt)
+//@   nowrap
+//@   modifies nothing
